@@ -1,5 +1,6 @@
 SPECIFICATION Spec
 CONSTANT Which = "C17"
+CONSTANT TinyLen = 7
 CONSTANT SmallLen = 5
 CONSTANT AsBuilt = {}
 CONSTANT MaxLen = 3
